@@ -762,7 +762,7 @@ fn eval_select(ctx: &Ctx<'_>, sel: &Select, parent: Option<&Scope<'_>>) -> R<Rel
             .collect();
         for w in &wins {
             let ev = |i: usize, e: &Expr| -> R<Value> { eval_on(&cxs[i], e, None) };
-            win_vals.push(window::compute(ctx, w, n, &ev, &ident)?);
+            win_vals.push(window::compute(ctx, w, n, &ev, &ident, wins.len() > 1)?);
         }
     }
 
